@@ -941,6 +941,12 @@ package hashgraph
 //@   ensures[rep]        ret0 == nil ==> (forall i int :: 0 <= i && i < len(peerSet.Peers) ==> __in(peers.KeyOf(peerSet.Peers[i]), c.repertoireByPubKey))
 //@   loop 1 modifies c.repertoireByPubKey[*], c.repertoireByID[*], c.firstRounds[*]
 //@   loop 1 invariant[rep] forall i int :: 0 <= i && i < __idx() ==> __in(peers.KeyOf(peerSet.Peers[i]), c.repertoireByPubKey)
+// first rounds (used when a frame's roots are built): every member of the recorded set has a first round at or below this one,
+// and an existing entry only ever moves down, to this round
+//@   ensures[first-round]      ret0 == nil ==> (forall i int :: 0 <= i && i < len(peerSet.Peers) ==> __in(PID(peerSet.Peers[i]), c.firstRounds) && c.firstRounds[PID(peerSet.Peers[i])] <= round)
+//@   ensures[first-round-kept] forall k uint32 :: old(__in(k, c.firstRounds)) ==> __in(k, c.firstRounds) && c.firstRounds[k] <= old(c.firstRounds[k]) && (c.firstRounds[k] == old(c.firstRounds[k]) || c.firstRounds[k] == round)
+//@   loop 1 invariant[first-round]      forall i int :: 0 <= i && i < __idx() ==> __in(PID(peerSet.Peers[i]), c.firstRounds) && c.firstRounds[PID(peerSet.Peers[i])] <= round
+//@   loop 1 invariant[first-round-kept] forall k uint32 :: old(__in(k, c.firstRounds)) ==> __in(k, c.firstRounds) && c.firstRounds[k] <= old(c.firstRounds[k]) && (c.firstRounds[k] == old(c.firstRounds[k]) || c.firstRounds[k] == round)
 
 //@ iface func (s Store) SetPeerSet(round int, peers *peers.PeerSet) error
 //@   requires peers != nil
